@@ -21,6 +21,8 @@
 (*     for long start vectors the recorder logs the projection             *)
 (*     (d0, dlast, mind = smallest difference, dev2 = max 2*|D[i]*(K-1) -  *)
 (*     i*(N-L)|) instead of D.                                             *)
+(*   [t |-> "hbin", ...]       the same for records longer than 2^18       *)
+(*                             samples, without the Q12 frequency fields   *)
 (*   [t |-> "built", ok, same] SpectrumAnalyzer(...).plan() succeeded; its *)
 (*                             plan equals the scheduler's (f, r, L, K, D) *)
 (*   [t |-> "count", a, b]     bin counts of the vectorised / iterative    *)
@@ -47,7 +49,7 @@ Xov == <<C.od - C.on, C.od>>
 Q12 == 4096
 Q20 == 1048576
 
-NumBins == Cardinality({i \in 1..Len(T.ev) : T.ev[i].t = "bin"})
+NumBins == Cardinality({i \in 1..Len(T.ev) : T.ev[i].t \in {"bin", "hbin"}})
 
 (* ---- start vector clauses, on the full vector when logged, else on the projection ---- *)
 StartsFull(e) ==
@@ -140,7 +142,33 @@ Count ==
     /\ Check("C04:vectorised_bin_count_within_10_percent", 10 * Abs(Ev.a - Ev.b) <= Max(Ev.b, 10))
     /\ l' = l + 1 /\ UNCHANGED <<tid, prev>>
 
-Next == Bin \/ Built \/ Count
+(* bins of plans for very long records (N > 2^18, up to a few 10^5 segments per bin): the start-vector, count and overlap   *)
+(* clauses, which stay within 32-bit arithmetic; the frequency-grid clauses (Q12 frequencies times N) are left to Bin.      *)
+HBin ==
+    /\ l <= Len(T.ev) /\ Ev.t = "hbin"
+    /\ LET e == Ev IN
+       /\ Check("C02:at_least_one_average", e.navg >= 1 /\ e.K >= 1)
+       /\ Check("C02:navg_equals_number_of_starts", e.navg = e.nD /\ e.K = e.nD)
+       /\ Check("C02:first_start_is_zero", e.d0 = 0)
+       /\ Check("C02:last_segment_ends_at_last_sample", e.dlast + e.L = N)
+       /\ Check("C02:length_bounds", Max(1, C.Lmin) <= e.L /\ e.L <= N)
+       /\ Check("C02:single_segment_uses_whole_record", e.K # 1 \/ e.L = N)
+       /\ StartsProjected(e)
+       /\ Check("C03:dft_constraint_rL_eq_fs", e.rl <= 1)
+       /\ Check("C03:stepping_f_next_eq_f_plus_r", e.step <= 1)
+       /\ Check("C03:bin_number_is_fL_over_fs", e.bu <= 4)
+       /\ Check("C03:below_nyquist", e.nyq < 0)
+       /\ Check("C04:length_never_increases", prev = <<>> \/ e.L <= prev.L)
+       /\ Check("C04:averages_never_decrease", prev = <<>> \/ e.navg >= prev.navg)
+       /\ Check("C04:averages_nearest_to_ideal_capped", Seg!KOk(e.navg, N, e.L, Xov))
+       /\ Check("C04:reported_overlap_is_realised_overlap",
+                IF e.nD = 1 THEN e.qO = 0
+                ELSE NearFrac(e.qO, e.L * (e.nD - 1) - (e.dlast - e.d0), e.L * (e.nD - 1)))
+       /\ prev' = [qf |-> 0, L |-> e.L, navg |-> e.navg]
+    /\ l' = l + 1
+    /\ UNCHANGED tid
+
+Next == Bin \/ HBin \/ Built \/ Count
 Spec == Init /\ [][Next]_vars
 
 Done == (l = Len(T.ev) + 1) => PrintT(<<"OK", tid>>)
